@@ -80,6 +80,61 @@ def _rename_locals(tree, every=False):
     return count
 
 
+def _if_swap(tree):
+    """if c: A else: B  ->  if not c: B else: A  (only plain if/else, no elif chains).  Returns number of swaps."""
+    count = 0
+    for n in ast.walk(tree):
+        if isinstance(n, ast.If) and n.orelse and not (len(n.orelse) == 1 and isinstance(n.orelse[0], ast.If)):
+            par_is_elif = False
+            if not par_is_elif:
+                n.test = n.test.operand if isinstance(n.test, ast.UnaryOp) and isinstance(n.test.op, ast.Not) else ast.UnaryOp(op=ast.Not(), operand=n.test)
+                n.body, n.orelse = n.orelse, n.body
+                count += 1
+    return count
+
+
+def _inert(tree):
+    """Insert statements without effect (a `pass`, a string expression) at the start of every function body, loop body and if arm."""
+    count = 0
+    for n in ast.walk(tree):
+        for fld in ("body", "orelse"):
+            lst = getattr(n, fld, None)
+            if isinstance(n, (ast.FunctionDef, ast.For, ast.While, ast.If)) and isinstance(lst, list) and lst:
+                start = 1 if (isinstance(n, ast.FunctionDef) and isinstance(lst[0], ast.Expr) and isinstance(lst[0].value, ast.Constant)) else 0
+                if isinstance(n, ast.FunctionDef) and any(isinstance(d, ast.Call) or True for d in n.decorator_list) and n.decorator_list:
+                    continue  # numba-compiled kernels: leave alone
+                lst.insert(start, ast.Pass())
+                count += 1
+    return count
+
+
+def _hoist_temps(tree):
+    """x = f(<compound arg>)  ->  tmp = <compound arg>; x = f(tmp)   for top-level assignments of functions (first positional argument only)."""
+    count = 0
+    for fn in [n for n in ast.walk(tree) if isinstance(n, ast.FunctionDef)]:
+        if fn.decorator_list:
+            continue
+        used = {x.id for x in ast.walk(fn) if isinstance(x, ast.Name)} | {a.arg for a in ast.walk(fn) if isinstance(a, ast.arg)}
+        new_body = []
+        for st in fn.body:
+            if isinstance(st, ast.Assign) and isinstance(st.value, ast.Call) and st.value.args and isinstance(st.value.args[0], (ast.BinOp, ast.Call, ast.Subscript)) \
+                    and not any(isinstance(x, (ast.Lambda, ast.Starred, ast.NamedExpr, ast.Yield, ast.Await)) for x in ast.walk(st)):
+                k = 0
+                while f"hoisted_{k}" in used:
+                    k += 1
+                nm = f"hoisted_{k}"
+                used.add(nm)
+                new_body.append(ast.Assign(targets=[ast.Name(id=nm, ctx=ast.Store())], value=st.value.args[0], lineno=st.lineno))
+                st.value.args[0] = ast.Name(id=nm, ctx=ast.Load())
+                count += 1
+            new_body.append(st)
+        fn.body = new_body
+    return count
+
+
+TWINS = {"rename-locals": lambda t: _rename_locals(t, every=True), "if-swap": _if_swap, "inert": _inert, "hoist-temps": _hoist_temps}
+
+
 def run_for(prop, rule, model):
     tmp = tempfile.mkdtemp(prefix="verif_selftest_")
     out = {"breaking": [], "preserving": []}
@@ -116,7 +171,7 @@ def run_for(prop, rule, model):
         except Exception:
             pass
         mods = sorted(ctx.consulted)
-        for kind in ("unparse", "rename-locals"):
+        for kind in ("unparse",) + tuple(TWINS):
             root = _copy_src(tmp, f"p_{kind}")
             n_changed = 0
             for mn in mods:
@@ -125,8 +180,8 @@ def run_for(prop, rule, model):
                     continue
                 path = os.path.join(root, os.path.relpath(m.path, REPO))
                 tree = ast.parse(m.source)
-                if kind == "rename-locals":
-                    n_changed += _rename_locals(tree, every=True)
+                if kind in TWINS:
+                    n_changed += TWINS[kind](tree)
                 else:
                     n_changed += 1
                 new = ast.unparse(ast.fix_missing_locations(tree)) + "\n"
